@@ -579,14 +579,27 @@ def findVariant : List VDec → Nat → Nat → Dec Val
       if vd.a.idx == k then do let vs ← vd.body; pure (.enum pos vs)
       else findVariant vds (pos + 1) k
 
+/-- the end of an indefinite-length `[index, body]` wrapper: `if Type::Break != d.datatype()? { error } d.skip()?` -/
+def wrapperEnd (indef : Bool) : Dec Unit :=
+  if indef then do
+    let t ← Dec.datatype
+    if t == .break then Dec.skip else Dec.fail .message
+  else pure ()
+
+/-- `on_enum`: tag, the two-element wrapper `[index, body]` (definite, or — since the repair of K8 —
+    indefinite-length and closed by a break), the variant. -/
 def enumDec (e : EAttr) (vds : List VDec) : Dec Val := do
   tagCheck e.tag
-  (if e.indexOnly then pure ()
+  let indef ← (if e.indexOnly then pure false
    else do
      let n ← Dec.array
-     if n == some 2 then pure () else Dec.fail .message : Dec Unit)
+     match n with
+     | some k => if k == 2 then pure false else Dec.fail .message
+     | none => pure true : Dec Bool)
   let k ← Dec.intAcc .u32
-  findVariant vds 0 k.toNat
+  let v ← findVariant vds 0 k.toNat
+  wrapperEnd indef
+  pure v
 
 def transparentDec : List FDec → Dec Val
   | [fd] => do let v ← fd.dec; pure (.struct [v])
